@@ -18,11 +18,16 @@ Places == {"header", "between-blocks", "after-expressions-header", "inside-expre
            "blank-inside-expressions", "indent", "crlf", "continuation", "trailing-spaces", "tabs", "no-final-newline",
            "unit-annotation", "two-comments", "after-header-and-inside", "header-and-trailing",
            \* a comment (a blank line) after EVERY line of the text: a block is cut into as many segments as it has lines
-           "comment-every-line", "blank-every-line", "comment-every-assignment"}
+           "comment-every-line", "blank-every-line", "comment-every-assignment",
+           \* comments where no statement can end (they cannot annotate anything): between the entries of a states /
+           \* parameters block written over several lines, inside a header, after an operator of a continued expression,
+           \* inside a parenthesised sub-expression
+           "inside-declaration", "inside-header", "comment-in-continuation", "comment-in-parentheses"}
 \* index into the harness' table of comment strings (plain words, unit names, "1/0", "9**9**9", "x = 3", quotes, ...)
 NStrings == 38
 NeedsString(p) == p \in {"header", "between-blocks", "after-expressions-header", "inside-expressions", "trailing", "end-of-file", "two-comments",
-                          "after-header-and-inside", "header-and-trailing", "comment-every-line", "comment-every-assignment"}
+                          "after-header-and-inside", "header-and-trailing", "comment-every-line", "comment-every-assignment",
+                          "inside-declaration", "inside-header", "comment-in-continuation", "comment-in-parentheses"}
 
 VARIABLES deco
 dvars == <<vars, deco>>
